@@ -219,6 +219,35 @@ opened("F07f", "C07", "PythonRegex replaces shortcuts blindly: an escaped backsl
 opened("F07g", "C07", "PythonRegex negated sets ignore escaped ] - ^ and shortcuts when complementing ([^\\d] accepts 5, [^\\]] accepts ])",
        pat("[^\\d]|[^\\]]x", ["5", "a", "]x", "ax", ""], ["negset", "set_shortcut", "set_escape", "alt"]),
        None, None, "negset_escape", ["negset_escape"])
+# ------------------------------------------------------------------ C19
+opened("F19d", "C19", "the grammar returned by IndexedGrammar.intersection has end rules whose terminal is a list: intersecting it again (or asking its terminals) raises TypeError (unhashable type: 'list')",
+       {"family": "indexed_regex",
+        "steps": [["new", "regex", {"text": "a"}], ["new", "ig", {"rules": [["end", "S", "a"]]}],
+                  ["op", "ig_intersection", [1, 0]], ["op", "ig_intersection", [2, 0]]]},
+       "op:ig_intersection", "exception:TypeError@end_rule.py", "nested_ig_intersection", ["ig_nested_intersection"])
+fixed("F19e", "C19", "ea727b6",
+      "union of a grammar returned by CFG.intersection raised TypeError in substitute (non-string variable values)",
+      {"family": "grammar_automata_regex",
+       "steps": [["new", "cfg", {"how": "text", "prods": [["S", [["T", "a"]]], ["S", [["V", "S"], ["V", "S"]]]], "start": "S", "tpool": "ab", "vpool": "std"}],
+                 ["new", "fa", fa("enfa", [[0, "a", 0], [0, "a", 1], [0, "b", 0]], [0], [0], pool="int")],
+                 ["op", "c_inter_fa", [0, 1]], ["op", "c_union", [0, 2]]]})
+fixed("F19a", "C19", "e94acc3",
+      "evaluating a combined regex overwrote the cached automaton of its operands: after r.concatenate(r) the operand r accepted other words",
+      {"family": "automata_regex",
+       "steps": [["new", "regex", {"text": "a"}], ["op", "r_concatenate", [0, 0]], ["new", "regex", {"text": "a"}]]})
+fixed("F19b", "C19", "e94acc3",
+      "Regex.to_epsilon_nfa handed out the automaton cached by accepts: mutating the returned automaton changed what the regex accepts",
+      {"family": "automata_regex",
+       "steps": [["new", "regex", {"text": "a"}], ["op", "to_epsilon_nfa", [0]], ["mut", 1]]})
+fixed("F19c", "C19", "7d2a38c",
+      "converter indexes cached on State/StackSymbol objects shared between PDAs: to_cfg of a PDA derived from another one raised IndexError (or produced a wrong grammar)",
+      {"family": "pda_grammar_automata",
+       "steps": [["new", "pda", {"finals": ["q0"], "how": "mut", "kpool": "std", "spool": "str", "start": "q0",
+                                 "trans": [["q0", "a", "Z", "q0", []], ["q0", "a", "Z", "q1", []], ["q0", "a", "Z", "q2", []]],
+                                 "ypool": "ab", "z0": "Z"}],
+                 ["new", "pda", {"finals": ["q1"], "how": "mut", "kpool": "std", "spool": "str", "start": "q0",
+                                 "trans": [["q0", "a", "Z", "q0", []], ["q0", "a", "Z", "q0", ["Z"]]], "ypool": "ab", "z0": "Z"}],
+                 ["op", "to_empty_stack", [1]]]}, hashseed="1923123798")
 # ------------------------------------------------------------------ C06
 fixed("F06a", "C06", "2262869",
       "to_regex raised ValueError on automata with two start states",
